@@ -1055,6 +1055,16 @@ fn run_history(bytes: &[u8], ctx: &mut Ctx, want_log: bool, log: &mut Vec<String
             } else {
                 ctx.label(format!("legal-err:{}", legal_class(&kind)));
                 legal_failed = true;
+                // an operation the API documents as valid has to succeed: without
+                // this, "the same successful operations" would be satisfied by a
+                // blob that refuses everything
+                let oc = match &outcome {
+                    Outcome::Err(e) => e.clone(),
+                    _ => String::new(),
+                };
+                ctx.known_or_fail(&format!("C18:{}:legal-operation-refused", legal_class(&kind)), || {
+                    format!("step {step}: {descr} on a map of {n_before} keys is valid (fresh key / fresh leaf hash / present key, legal location) but returned Err({oc})")
+                })?;
             }
         }
         if !ok && failed_at.is_none() {
@@ -1192,6 +1202,7 @@ pub fn run_main() {
             "sha2::Sha256 (not chia-sha2) is a correct SHA-256; an internal node's hash is sha256(0x02 | left | right) as defined by internal_hash in blob.rs",
             "get_node(index) returns the block stored at that index (it is the harness's only way to see the tree shape)",
             "for a successful batch_insert the plain map receives the entries in order (last wins)",
+            "an operation that is valid by the API's own rules (insert of a fresh key with a fresh leaf hash at Auto / an existing leaf / as root of an empty tree, delete of a present key, upsert with a fresh or its own hash, a duplicate-free batch) must succeed: refusing it is reported (legal-operation-refused), because otherwise 'a plain map subjected to the same successful operations' is satisfied by a blob that refuses everything",
         ],
         death_is_violation: false,
         subchecks: vec![SubCheck {
